@@ -11,13 +11,14 @@ def T(name, pkg, quick, thorough, **kw):
 PROPS = {
     "C01": {
         "level": "exploration",
-        "tests": [T("TestC01Converge", "fleet", 1200, 128000, shards=16, qshards=4)],
+        "tests": [T("TestC01Converge", "fleet", 1200, 128000, shards=16, qshards=4),
+                  T("TestC01OrderIndependent", "fleet", 600, 64000, shards=16, qshards=4)],
         "assumptions": [
             "tomb sweeper disabled (as the property states)",
             "native mode: an application overwrite is stamped strictly later than the version it overwrites (shared monotone clock); equal timestamps arise between instances that have not seen each other's versions",
             "shadow mode: detection stamps come from one shared logical clock through the guarded capture wrapper and are strictly later than every version the capturing instance already stores",
             "live empty values in shadow mode are excluded (known finding shadow-empty-value) and counted",
-            "the oracle is the set model: a stored version must be one of the highest-timestamp versions seen; the tie-break itself is only required to be the same everywhere (identical content after quiescence)",
+            "the oracle is the set model: a stored version must be one of the highest-timestamp versions seen; the tie-break itself is only required to be the same everywhere (identical content after quiescence) and, in the metamorphic test, the same under two different exchange orders of the same writes",
         ],
     },
     "C03": {
